@@ -680,7 +680,12 @@ def _compose_qoperations_MProcess_StateEnsemble(
         num_hss = len(elem1.hss)
         new_states = []
         for x_index, state in enumerate(elem2.states):
-            local_ps = ps[x_index * num_hss : (x_index + 1) * num_hss]
+            # conditional distribution of this branch (ps holds weight * p_x; a branch of weight 0 keeps its zero state)
+            local_ps = np.array(ps[x_index * num_hss : (x_index + 1) * num_hss])
+            if np.sum(local_ps) == 0:
+                new_states.append(states[x_index * num_hss])
+                continue
+            local_ps = local_ps / np.sum(local_ps)
             sample = multinomial.rvs(1, local_ps)
             sample_index = np.argmax(sample)
             new_states.append(states[x_index * num_hss + sample_index])
